@@ -407,6 +407,76 @@ pub fn scenarios(include_heavy: bool) -> Vec<Scenario> {
             finish(h, r, |x| crate::report::hex(x))
         }) });
     }
+    // ---- sizes above the buffer thresholds on the I/O paths (4 KiB codec buffers, 8 KiB BufReader, 64 KiB)
+    for c in [Compression::None, Compression::GZip] {
+        let name = cname(c);
+        let mut l = Logical::new(c);
+        l.tiles.insert(3, crate::common::xorshift_bytes(5, 70_000));
+        l.tiles.insert(4, b"small".to_vec());
+        l.meta.insert("big".into(), serde_json::Value::String("m".repeat(9 * 1024)));
+        let bytes = write_lib(&l, Api::Sync).expect("HARNESS: big scenario archive");
+        let b = bytes.clone();
+        v.push(Scenario { name: format!("archive-open+lookups/big-tile/{name}/sync"), is_async: false, role: Role::Reader, heavy: true, faults: false, run: Box::new(move |ch| {
+            let h = Handle::new(b.clone(), ch);
+            let r = catch(|| PMTiles::from_reader(h.sync()).map(|mut pm| {
+                let v = view_sync(&mut pm, &[3, 4, 5]);
+                (v.ids.clone(), v.meta.len(), v.tiles.iter().map(|(k, t)| (*k, t.as_ref().map(|o| o.as_ref().map(|b| crate::common::fnv(b))).map_err(|e| e.clone()))).collect::<Vec<_>>())
+            }));
+            finish(h, r, |x| format!("{x:?}"))
+        }) });
+        let b = bytes.clone();
+        v.push(Scenario { name: format!("archive-open+lookups/big-tile/{name}/async"), is_async: true, role: Role::Reader, heavy: true, faults: false, run: Box::new(move |ch| {
+            let h = Handle::new(b.clone(), ch);
+            let r = catch(|| block_on(PMTiles::from_async_reader(h.asyn())).map(|mut pm| {
+                let v = view_async(&mut pm, &[3, 4, 5]);
+                (v.ids.clone(), v.meta.len(), v.tiles.iter().map(|(k, t)| (*k, t.as_ref().map(|o| o.as_ref().map(|b| crate::common::fnv(b))).map_err(|e| e.clone()))).collect::<Vec<_>>())
+            }));
+            finish(h, r, |x| format!("{x:?}"))
+        }) });
+        let l2 = l.clone();
+        v.push(Scenario { name: format!("archive-write/big-tile/{name}/sync"), is_async: false, role: Role::Writer, heavy: true, faults: true, run: Box::new(move |ch| {
+            let h = Handle::new(Vec::new(), ch).record_data();
+            let r = catch(|| {
+                let mut pm = PMTiles::<std::io::Cursor<Vec<u8>>>::default();
+                apply(&mut pm, &l2);
+                pm.to_writer(&mut h.sync())
+            });
+            finish(h, r, |_| "()".into())
+        }) });
+        let l2 = l.clone();
+        v.push(Scenario { name: format!("archive-write/big-tile/{name}/async"), is_async: true, role: Role::Writer, heavy: true, faults: true, run: Box::new(move |ch| {
+            let h = Handle::new(Vec::new(), ch).record_data();
+            let r = catch(|| {
+                let mut pm = PMTiles::<futures::io::Cursor<Vec<u8>>>::default();
+                apply(&mut pm, &l2);
+                block_on(pm.to_async_writer(&mut h.asyn()))
+            });
+            finish(h, r, |_| "()".into())
+        }) });
+        // re-write where the big tile comes from the controlled backing reader
+        let b = bytes.clone();
+        v.push(Scenario { name: format!("archive-rewrite-backing/big-tile/{name}/sync"), is_async: false, role: Role::Reader, heavy: true, faults: true, run: Box::new(move |ch| {
+            let h = Handle::new(b.clone(), ch);
+            let r = catch(|| {
+                let pm = PMTiles::from_reader(h.sync())?;
+                let mut out = std::io::Cursor::new(Vec::new());
+                pm.to_writer(&mut out)?;
+                Ok(crate::common::fnv(out.get_ref()))
+            });
+            finish(h, r, |x: &u64| format!("{x:x}"))
+        }) });
+        let b = bytes.clone();
+        v.push(Scenario { name: format!("archive-rewrite-backing/big-tile/{name}/async"), is_async: true, role: Role::Reader, heavy: true, faults: true, run: Box::new(move |ch| {
+            let h = Handle::new(b.clone(), ch);
+            let r = catch(|| {
+                let pm = block_on(PMTiles::from_async_reader(h.asyn()))?;
+                let mut out = futures::io::Cursor::new(Vec::new());
+                block_on(pm.to_async_writer(&mut out))?;
+                Ok(crate::common::fnv(out.get_ref()))
+            });
+            finish(h, r, |x: &u64| format!("{x:x}"))
+        }) });
+    }
     // ---- heavy: archive write with leaf spill
     if include_heavy {
         for c in [Compression::None, Compression::GZip] {
